@@ -390,3 +390,39 @@ func ZzC20ResendIncoming() {
 	}
 	verifrt.Reach("c20-end")
 }
+
+// ZzC20ResyncPipeline: an accepted, still unconfirmed send; then the wallet
+// resynchronises k times through its real rescan goroutines (request, the
+// backend's RescanFinished for the same tip each time): after EVERY finished
+// rescan the transaction is offered to the backend again.
+func ZzC20ResyncPipeline()   { zzC20ResyncPipeline(0, 2) }
+func ZzC20ResyncPipelineP1() { zzC20ResyncPipeline(1, 3) }
+
+func zzC20ResyncPipeline(bound, rounds int) {
+	w := zzNewC20World()
+	t, _ := w.spend(w.fund, 0, w.fundAmt, w.changeAddr, 7)
+	_, err := w.w.reliablyPublishTransaction(t, "")
+	zzW(err)
+	th := t.TxHash()
+	sent0 := len(w.chain.sent)
+	verifrt.PreemptionBound(bound)
+	w.startRescanPipeline()
+	m := w.chain.meta(w.chain.tip())
+	for k := 1; k <= rounds; k++ {
+		zzW(w.w.Rescan([]btcutil.Address{w.recvAddr}, nil))
+		verifrt.Assert(w.chain.rescans == k, "c20-rescan-requested")
+		w.chain.ntfns <- &chain.RescanFinished{Hash: &m.Hash, Height: m.Height, Time: m.Time}
+		verifrt.Quiesce()
+		n := 0
+		for _, s := range w.chain.sent[sent0:] {
+			if s.TxHash() == th {
+				n++
+			}
+		}
+		verifrt.Assert(n == k, "c20-reoffered-after-every-finished-rescan")
+	}
+	verifrt.Assert(w.known(th), "c20-still-recorded")
+	close(w.w.quit)
+	verifrt.Quiesce()
+	verifrt.Reach("c20-end")
+}
